@@ -72,7 +72,7 @@ func (e *Env) Footer(mismatchFn string) {
 	fmt.Fprintf(e.v, "\n].\nDefinition M := Eval vm_compute in (%s cases).\nPrint M.\n", mismatchFn)
 }
 
-func (e *Env) Count(k string) { e.Stats[k]++ }
+func (e *Env) Count(k string)      { e.Stats[k]++ }
 func (e *Env) Add(k string, n int) { e.Stats[k] += n }
 
 func (e *Env) finish() error {
